@@ -237,4 +237,5 @@ class Encoder(object):
         return "'%s'" % val.compressed
 
     def cql_encode_decimal(self, val):
-        return self.cql_encode_float(float(val))
+        # the decimal's own text is a CQL literal and keeps every digit (float() would round it)
+        return str(val)
